@@ -202,7 +202,7 @@ impl Prop for C16 {
         "C16"
     }
     fn rule(&self) -> &'static str {
-        "cases = ONC-RPC calls: arbitrary XID, RPC version low byte, program in 99840..100095 (100000 weighted), program version in {0..6, random u32, 104316}, procedure 0..255, credential flavour and length 0..64 (multiples of 4 and, tracked separately, other lengths with XDR padding), verifier length 0..400, AUTH_SYS credential bodies (stamp, machine name, uid, gid, gids; consistent, with a machine-name length that disagrees with the bytes present, or cut short), optional argument bytes; optionally preceded by 1..2 calls cut short at an arbitrary byte, sent as datagrams from other source ports; over UDP and over a handshaken TCP flow (record mark with last-fragment bit), IPv4 and IPv6, arbitrary destination address and port. Calls inside a listed matcher divergence (C10: XID first byte shadowed) are excluded and counted. Oracle: own XDR reader: record mark (last-fragment bit, length = rest) over TCP, XID echoed, REPLY / MSG_ACCEPTED / null verifier, then by precedence PROG_MISMATCH(2,4) for versions outside 2..4, empty SUCCESS for procedure 0, GETPORT = contacted port, GETADDR / DUMP universal addresses = contacted address and port with a netid of the right IP family and a well-formed value-follows list, PROC_UNAVAIL, PROG_UNAVAIL; length multiple of 4, nothing left over. Non-trivial = every identified call; distinct by message hash and by (program class, version class, procedure class, transport, IP version)."
+        "cases = ONC-RPC calls: arbitrary XID, RPC version low byte, program in 99840..100095 (100000 weighted), program version in {0..6, random u32, 104316}, procedure 0..255, credential flavour and length 0..64 (multiples of 4 and, tracked separately, other lengths with XDR padding), verifier length 0..400, AUTH_SYS credential bodies (stamp, machine name, uid, gid, gids; consistent, with a machine-name length that disagrees with the bytes present, or cut short), optional argument bytes; optionally preceded by 1..2 calls cut short at an arbitrary byte, sent as datagrams from other source ports; over UDP and over a handshaken TCP flow (record mark with last-fragment bit), IPv4 and IPv6, arbitrary destination address and port. Calls inside a listed matcher divergence (C10: XID first byte shadowed) are excluded and counted. Oracle: own XDR reader: record mark (last-fragment bit, length = rest) over TCP, XID echoed, REPLY / MSG_ACCEPTED / null verifier, then by precedence PROG_MISMATCH(2,4) for versions outside 2..4, empty SUCCESS for procedure 0, GETPORT = contacted port, GETADDR / DUMP universal addresses = contacted address and port with a netid of the right IP family and a well-formed value-follows list, PROC_UNAVAIL, PROG_UNAVAIL; length multiple of 4, nothing left over. Non-trivial = every identified call; distinct by message hash and by (program class, version class, procedure class, transport, IP version). Shadow traffic (vf/shadow.rs): three cases in ten process, before every frame of the case, a sibling of that frame whose result is discarded — the same frame again, or one tuple element (source / destination port, source / destination address, source MAC), one payload bit or the payload length changed; TCP conversations are shadowed whole on a sibling flow validated with its own cookie; sound by the statement of C08, cases whose own flows meet a shadow tuple are excluded and counted."
     }
     fn run(&self, ctx: &mut RunCtx) {
         let n = ctx.share(ctx.tier.n(2_500_000, 20_000_000));
